@@ -107,9 +107,7 @@ Qed.
    entry reader DENOTES the content (so by C09_complete_run every completed read, under every schedule of buffer
    sizes including zero-length reads, returns exactly the content, and chunking is irrelevant); raw name, decoded
    name, method, sizes and CRC are the written ones.
-   The ingredients (start_file_stored, write_stored, finish_file_stored, laid_out_grow, read_laid_out,
-   finish_then_open) are stated for an arbitrary prefix of earlier entries, so the k-entry statement is an induction
-   over them; it is not spelled out here. *)
+   (C01_stored_roundtrip below is the statement for any number of entries.) *)
 From ZipV Require Import Proofs.StreamProofs Proofs.EntryRead Proofs.WriterEntry Proofs.StoredRoundtrip.
 Theorem C01_stored_single_roundtrip : forall (kdf : bytes -> bytes -> N -> bytes) (blk mac : bytes -> bytes -> bytes) enc crc, (forall x, crc x < 2 ^ 32) ->
   forall name o content,
@@ -128,6 +126,31 @@ Theorem C01_stored_single_roundtrip : forall (kdf : bytes -> bytes -> N -> bytes
        f_method g = CompressionMethod_Stored /\ f_usize g = len content /\ f_csize g = len content /\ f_crc g = crc content).
 Proof. exact stored_single_roundtrip. Qed.
 Print Assumptions C01_stored_single_roundtrip.
+
+(* the same for ANY number of stored entries: the program  start_file n1 o1; write_all c1; ...; start_file nk ok;
+   write_all ck; finish  (each start_file closes the previous entry and patches its header) returns bytes on which the
+   reader lists k entries, in order, and entry i denotes c_i, with name n_i (cls pairs every record with its content) *)
+Theorem C01_stored_roundtrip : forall (kdf : bytes -> bytes -> N -> bytes) (blk mac : bytes -> bytes -> bytes) enc crc,
+  (forall x, crc x < 2 ^ 32) ->
+  forall n1 o1 c1 rest,
+  let es := (n1, o1, c1) :: rest in
+  Forall entry_ok es -> layout_len es + N.of_nat (length es) * 131218 < 2 ^ 64 ->
+  exists s' s3 data b dir (cls : list closed),
+    write_entries enc crc (new_writer []) es = (s', Ok tt) /\
+    finish enc crc s' = (s3, Ok data) /\
+    data = b ++ dir ++ concat (end_records (N.of_nat (length es)) (len b) (len dir) []) /\
+    map (fun cl : closed => (w_name (fst (fst cl)), snd cl)) cls = map (fun e : entry => (fst (fst e), snd e)) es /\
+    ((needs64 (N.of_nat (length es)) (len dir) (len b) = false -> no_locator_before (b ++ dir)) ->
+     exists gs,
+       let ar := {| ar_data := data; ar_files := gs; ar_offset := 0; ar_comment := [] |} in
+       open data = Ok ar /\ length gs = length es /\
+       forall i f cs c, nth_error cls i = Some (f, cs, c) ->
+         exists dt p ds cr,
+           nth_error gs i = Some (decoded f dt 0 p) /\
+           by_index_opt kdf ar (N.of_nat i) None = Ok (Some (decoded f dt 0 p, ds, cr)) /\
+           plain_inv cr /\ crc_den crc plain_den (make_stored (decoded f dt 0 p) cr) = Good c).
+Proof. exact stored_roundtrip. Qed.
+Print Assumptions C01_stored_roundtrip.
 
 (* what "denotes" buys: any schedule of reads that reaches a clean end of file has returned exactly the content *)
 Theorem C01_denoted_is_read : forall blk mac crc (s : stored_st) content bufs outs sf k n,
